@@ -267,7 +267,7 @@ void locmin_max(numpy::aligned_array<bool> res, const numpy::aligned_array<T> ar
     gil_release nogil;
     const numpy::index_type N = res.size();
     typename numpy::aligned_array<T>::const_iterator iter = array.begin();
-    filter_iterator<T> filter(res.raw_array(), Bc.raw_array(), ExtendNearest, true);
+    filter_iterator<T> filter(array.raw_array(), Bc.raw_array(), ExtendNearest, true);
     const numpy::index_type N2 = filter.size();
     bool* rpos = res.data();
 
